@@ -292,6 +292,25 @@ theorem sat_lstat {s : Side} {k : Key} {w : World} (hg : S.G w.fs) (hk : PKey k)
       exact ⟨hs, Or.inl ⟨n, i, hv, rfl, hfor⟩⟩
     · exact ⟨hs, Or.inr (Or.inr ⟨rfl, hf⟩)⟩
 
+/-- the root entry of Rollback's first loop, on a healthy pair of filesystems (the root of either
+view is a directory): ONE read-only primitive (Lstat of the root on the base) that finds the
+directory; the state is unchanged; no error is collected unless a fault was injected -/
+theorem sat_ensureRoot {w : World} (hg : S.G w.fs) (i : Info) :
+    Sat (BackupFS.ensureRoot cfg rootP i) w (fun w' r => SameFS w w' ∧ ∃ f, r = .ok f ∧ (w.faults = [] → f = false)) := by
+  unfold BackupFS.ensureRoot BackupFS.lexists
+  apply Sat.bind
+  apply Sat.attempt
+  apply Sat.bind
+  apply Sat.attempt
+  apply (sat_lstat (S := S) (s := .base) (k := []) hg (by intro n hn; cases hn) (fun a ha hne => absurd (List.prefix_nil.mp ha) hne)).mono
+  intro w1 r ⟨hs, hr⟩
+  obtain ⟨mt, hroot⟩ := S.root_dir (s := .base) hg
+  rcases hr with ⟨n, j, hv, rfl, hfor⟩ | ⟨hv, e, rfl, hnfd⟩ | ⟨rfl, hf⟩
+  · exact ⟨hs, false, rfl, fun _ => rfl⟩
+  · rw [hroot] at hv; cases hv
+  · exact ⟨hs, true, rfl, fun h => absurd h hf⟩
+
+
 /-- `Readlink (kp k)` of a symlink, under any fault plan -/
 theorem sat_readlink {s : Side} {k : Key} {t : Path} {mt : Meta} {w : World} (hg : S.G w.fs) (hk : PKey k)
     (hv : S.view s w.fs k = some (.link t mt)) :
